@@ -144,7 +144,11 @@ def replay(pkg_import, scenario, path, extra_overlays):
     m = re.search(r"^ZZRESULT (.*)$", p.stdout, re.M)
     if not m:
         return {"error": "replay produced no result: " + p.stdout[-2000:]}
-    return json.loads(m.group(1))
+    res = json.loads(m.group(1))
+    with open(path + ".result", "w") as f:
+        json.dump(res, f, indent=1)
+    res.pop("stack", None)
+    return res
 
 
 # ---------------------------------------------------------------- known findings
